@@ -221,6 +221,10 @@ def c01_up_gen(rng, tier):
         for m in ms:
             out.append("u%d sc=%s mode=%s" % (k, sc, m))
             k += 1
+            if m in ("short", "hdr", "bigrdlen", "counts"):
+                # the same after a well-formed exchange (the pooled read buffer holds a complete earlier reply)
+                out.append("u%d sc=%s mode=%s warm=1" % (k, sc, m))
+                k += 1
     return out
 
 
@@ -230,6 +234,9 @@ def up_oracle(line, res):
         return None
     if f.get("first") not in ("err", "reply"):
         return "a malformed upstream reply did not simply fail the exchange: " + res
+    if gens.fields(line).get("mode") in ("short", "hdr", "bigrdlen", "counts", "garbage", "ptrloop") and f.get("first") != "err":
+        return ("a reply that does not decode (cut short / counts or lengths that lie / garbage) was ACCEPTED as the answer "
+                "(decoded beyond the octets received?): " + res)
     if f.get("late") == "1":
         return "exchange against a garbage-sending upstream outlived its deadline: " + res
     if f.get("second") != "reply":
